@@ -10,7 +10,7 @@ from vf.unit import Unit
 HERE = os.path.dirname(os.path.abspath(__file__))
 
 SPEC = r'''
-use std::collections::HashMap;
+use std::collections::{HashMap, HashSet, BTreeMap, BTreeSet, VecDeque};
 verus! {
 global size_of usize == 8;
 // ---------------------------------------------------------------- p3-air symbolic vocabulary (mirrored from p3-air 0.6.3; Arc children as Box)
